@@ -64,6 +64,10 @@ CLAIMED = {
             "From the statement after `trial = study.ask()` every exit of _run_trial (return or any propagating exception) is preceded by <storage>.set_trial_state_values, under an explicit raise model (objective / after_trial / callbacks raise anything; float, int, math.isnan, len, arithmetic, comparison, subscript on values derived from the objective's return value raise their exception classes; trusted internals do not); the feasibility check is total and its None result means every element went through float(), the NaN test and the count test; for all 48 combinations of tell() arguments only (COMPLETE, validated floats), (FAIL, None), (PRUNED, None | validated float) reach the store and a normal return always follows a store; tell stores only for RUNNING trials; non-caught exceptions are re-raised after the store; loop accounting of _optimize_sequential and the n_jobs branch. Exhaustive over abstract states (~640). Decides the finalisation-path obligation; not numeric equality of stored floats or exotic Sequence subclasses.",
             "Raise model and total-by-assumption operations are listed in evidence; storage calls are assumed not to raise; a trial found not RUNNING after ask() is assumed already finished.",
             "DESIGN.md §3 C02"),
+    "C01": ("sibling/interface tables over the five backends, guard dominance on CFGs, finite-domain CAS and timestamp exploration, must/may key-set dataflow for journal records, container-insert/remove census, docstring-vs-handler status-code tables, proto container taint with sanitisers",
+            "Each backend carries the mechanisms the documented contract names, on every path, and writer/reader pairs agree: all 18 abstract methods with the base signature in 5 backends; the finished-trial guard dominates every trial write (15 writers) and wrappers delegate purely; WAITING->RUNNING compare-and-set (25 state pairs x 3 backends); every container a create path inserts into is cleaned on delete or its readers are gated, 10 SQL child models cascade; all 9 template fields are read by every writer and all constructor parameters rebuilt by every reader; 10 journal op-codes have one producer and one arm with agreeing must/may key sets; 19 RPCs map the documented exceptions to status codes and back; protobuf containers never reach backend arguments raw; trial-number allocation; timestamps per requested state; distribution JSON key agreement. Decides structural conformance, not equality of return values across backends for arbitrary histories nor NaN/inf fidelity of encodings.",
+            "BaseStorage docstrings are the documented contract; api.proto parsed by a small regex parser; SQLAlchemy cascade semantics trusted.",
+            "DESIGN.md §3 C01"),
 }
 
 NOT_APPLICABLE = {
@@ -108,7 +112,7 @@ def main():
             "enable": "none: the checks are static analyses of /repo's source; no instrumentation is compiled in and no source commit uses the guard",
             "baseline_off_cmd": "cd /repo && /venv/bin/python -m pytest -ra -q -p no:cacheprovider --timeout=900 --continue-on-collection-errors --junitxml=/tmp/optuna_baseline.junit.xml",
             "source_commits": [],
-            "fix_commits": ["899865b", "bf20abd", "1904569", "255ec62"],
+            "fix_commits": ["899865b", "bf20abd", "1904569", "255ec62", "eeba606"],
             "add_only": True,
         },
         "engines": [{
